@@ -51,7 +51,7 @@ Step ==
             /\ waitsOn' = [t \in {} |-> 0] /\ readyFd' = {} /\ sawCb' = [t \in {} |-> 0] /\ sawTo' = [t \in {} |-> 0]
             /\ slices' = [t \in {} |-> 0] /\ lastParker' = [f \in {} |-> 0] /\ parkLoop' = [t \in {} |-> 0]
             /\ UNCHANGED nviol
-       [] ev \in {"epolls", "agent", "op_done", "lend", "step_b", "step_e"} -> UNCHANGED <<scen, nloops, want, waitsOn, readyFd, sawCb, sawTo, nviol, slices, lastParker, parkLoop>>
+       [] ev \in {"epolls", "agent", "op_done", "lend", "step_b", "step_e", "race"} -> UNCHANGED <<scen, nloops, want, waitsOn, readyFd, sawCb, sawTo, nviol, slices, lastParker, parkLoop>>
        [] ev = "op" ->
             /\ want' = CASE r.op = "wait" -> [want EXCEPT ![r.loop][r.fd] = @ \cup {r.kind}]
                          [] r.op = "del" -> [want EXCEPT ![r.loop][r.fd] = @ \ KS(r.kinds)]
